@@ -71,6 +71,9 @@ class ExprMixin:
         if kind == 'class':
             return ClassV(r[1])
         if kind == 'extern':
+            from .builtins_model import EXTERN_ATTRS
+            if r[1] in EXTERN_ATTRS:
+                return EXTERN_ATTRS[r[1]]       # a modelled constant of a dependency (e.g. string.whitespace)
             return ExternV(r[1])
         if kind == 'module':
             return ModuleV(r[1])
@@ -464,6 +467,8 @@ class ExprMixin:
             return self.equals(a, b)
         if isinstance(a, Ref) and isinstance(b, Ref):
             return a == b
+        if isinstance(a, tuple) and isinstance(b, tuple):
+            return a is b        # the very same tuple value handed on (interpreter tuples are immutable Python tuples)
         if isinstance(a, View) and isinstance(b, View):
             if a.moid == b.moid and a.prefix == b.prefix:
                 return self._eqv(a.idx, b.idx)
